@@ -14,7 +14,7 @@ IMPORTS = 'Require Import V.Base.MachineInt V.Model.CondTimers V.Model.ImageLife
 RULE = ('histories of 5-45 operations on a full in-process client (real ring, broadcast, counters buffers, harness clock, four real log files '
         'mapped by the conductor, mapping observed in /proc/self/maps): subscribe / publish (add, driver ready event, find), image available / '
         'unavailable events through a real BroadcastTransmitter (known, unknown, released and closed subscriptions, absent and repeated '
-        'correlation ids, one image shared by two subscriptions), handle drops (subscription, publication, kept image clone), client close, and '
+        'correlation ids, one image shared by two subscriptions), handle drops (subscription, publication, kept image clone), client close, a stalled driver (the harness fills the to-driver ring until every command is refused; adds and handle drops happen meanwhile; later drained), and '
         'duty cycles whose clock readings are centred on the live deadlines: last resource check + 1000, every lingering list stamp + linger, '
         'every time a log lost its last handle / was seen unreferenced + linger, each hit exactly, one below, one above, plus small steps and large '
         'jumps; linger in {0, 1000, 2500, 5000}; construction times from 0 (clock smaller than the linger timeout) to 2^40; 1-3 subscriptions x 0-4 images. '
@@ -57,6 +57,7 @@ class _Sim:
         self.keyfile = {}
         self.clones = 0
         self.closed = False
+        self.full = False   # to-driver ring full (stalled driver)
         self.stamps = []    # times at which something was lingered / dropped / checked
         self.withdrawn = False
         self.ticks_after = False
@@ -102,6 +103,7 @@ def gen_history(rng, malformed=False):
     n = rng.randrange(5, 46)
     # start with a subscription most of the time
     plan_close = rng.random() < 0.25
+    stall_plan = rng.random() < 0.35    # this history has a stalled driver (to-driver ring full) at some point
     for step in range(n):
         r = rng.random()
         live = [g for g in sim.order if g in sim.subs and sim.subs[g]['live']]
@@ -110,10 +112,11 @@ def gen_history(rng, malformed=False):
         if step == 0 or (r < 0.10 and len(held) < 3):
             ops.append(['S', now])
             if not sim.closed:
-                sim.subs[sim.next_id] = {'live': True, 'imgs': []}
-                sim.order.append(sim.next_id)
+                if not sim.full:
+                    sim.subs[sim.next_id] = {'live': True, 'imgs': []}
+                    sim.order.append(sim.next_id)
+                    sim.cycle(now)
                 sim.next_id += 1
-            sim.cycle(now)
         elif r < 0.18 and len(sim.pubs) < 3:
             keys = [k for (k, _) in sim.pubs.values()] + sim.old_keys
             share = rng.choice(keys) if keys and rng.random() < 0.5 else -1
@@ -123,9 +126,10 @@ def gen_history(rng, malformed=False):
                 f = rng.randrange(0, 4)
             ops.append(['P', now, share, f])
             if not sim.closed:
-                sim.pubs[sim.next_id] = (key, True)
+                if not sim.full:
+                    sim.pubs[sim.next_id] = (key, True)
+                    sim.cycle(now)
                 sim.next_id += 1
-            sim.cycle(now)
         elif r < 0.38:
             # image available
             q = rng.random()
@@ -169,12 +173,18 @@ def gen_history(rng, malformed=False):
                 sim.stamps.append(now)
                 sim.withdrawn = True
             sim.cycle(now)
+        elif r < 0.545 and stall_plan and not sim.full and step > 2:
+            ops.append(['ST'])
+            sim.full = True
+        elif r < 0.57 and sim.full:
+            ops.append(['DR'])
+            sim.full = False
         elif r < 0.78:
             ops.append(['T', now])
             if sim.withdrawn:
                 sim.ticks_after = True
             sim.cycle(now)
-        elif r < 0.83 and held:
+        elif (r < 0.83 or (sim.full and r < 0.90)) and held:
             reg = rng.choice(held) if rng.random() < 0.9 else sim.next_id + 1
             ops.append(['DS', now, reg])
             sim.now = max(sim.now, now)
@@ -258,6 +268,12 @@ def scripted():
         ops = [['P', 20000, -1, 1], ['DP', 20500, 1], ['T', 21001], ['P', 24000, 1, 1], ['DP', 25000, 3], ['T', 26002 + d], ['T', 27003],
                ['T', 30000 + d], ['T', 32004 + d], ['T', 40000]]
         cases.append({'kind': 'run', 'cfg': [5000, 20000, 0], 'ops': ops, 'nt': True})
+    # the driver stalls (to-driver ring full): adds are refused, a subscription with 1-3 images and publications are dropped meanwhile
+    for nimg in (1, 2, 3):
+        ops = [['S', 50000], ['P', 50000, -1, 3]] + [['A', 50100 + i, 1000 + i, 1, i] for i in range(nimg)] + \
+              [['ST'], ['S', 50200], ['P', 50200, 2, 3], ['DS', 50300, 1], ['DP', 50400, 2], ['DR'], ['S', 50500], ['T', 51501], ['T', 56502],
+               ['T', 57503], ['T', 62504], ['X', 63000], ['T', 64001], ['T', 70000], ['T', 76000]]
+        cases.append({'kind': 'run', 'cfg': [5000, 50000, 0], 'ops': ops, 'nt': True})
     return cases
 
 
@@ -278,7 +294,7 @@ def impl_line(c):
 
 
 _NAMES = {'S': 'Subscribe', 'P': 'Publish', 'A': 'Avail', 'U': 'Unavail', 'T': 'Tick', 'DS': 'DropSub', 'DP': 'DropPub',
-          'H': 'Hold', 'UH': 'Unhold', 'X': 'CloseClient'}
+          'H': 'Hold', 'UH': 'Unhold', 'X': 'CloseClient', 'ST': 'Stall', 'DR': 'Drain'}
 
 
 def _ops(c):
